@@ -57,7 +57,9 @@ Print Assumptions C10_edit_entry_on_bytes.
 
 (* frame on bytes, all six editors: from the archive written from writable file entries ns the command writes the writer's archive of as
    many entries; position by position edit_rel holds, and an entry that is not selected is written with the identical chunk list
-   (frame_rel: ser_normal n' = ser_normal n); for chmod / chown / xattr / strip (cmd_ok) the output is writable, accepted and reads back *)
+   (frame_rel: ser_normal n' = ser_normal n); for chmod / chown / xattr / strip (cmd_ok) the output is writable, accepted and reads back.
+   The selection is the one the command works with, Transform.eff_sel c nf sl: the patterns' — for strip (4d97c0da) every entry iff
+   no FILES were given, so the frame covers `pna strip ARCHIVE FILES...` (C10_frame_bytes_strip_patterns) *)
 Theorem C10_frame_bytes :
   forall hdr_tok content_tok : normal_entry -> bytes,
   (forall (e : normal_entry) (m : metadata) (xs : list xattr) (cs : list chunk),
@@ -75,8 +77,8 @@ Theorem C10_frame_bytes :
   exists ns' : list normal_entry,
     b' = write_raw_archive 0 (map ser_normal ns') /\
     length ns' = length ns /\
-    Forall2 (edit_rel hdr_tok content_tok c sl) (map normalize ns) ns' /\
-    Forall2 (frame_rel hdr_tok content_tok c sl) ns ns' /\
+    Forall2 (edit_rel hdr_tok content_tok c (Transform.eff_sel c nf sl)) (map normalize ns) ns' /\
+    Forall2 (frame_rel hdr_tok content_tok c (Transform.eff_sel c nf sl)) ns ns' /\
     (cmd_ok c -> Forall writable_normal ns') /\
     (Forall writable_normal ns' -> wf_archive b' = true /\ read_archive b' = Ok (map RNormal ns')).
 Proof. exact frame_bytes. Qed.
@@ -97,11 +99,61 @@ Check C10_frame_bytes :
   exists ns' : list normal_entry,
     b' = write_raw_archive 0 (map ser_normal ns') /\
     length ns' = length ns /\
-    Forall2 (edit_rel hdr_tok content_tok c sl) (map normalize ns) ns' /\
-    Forall2 (frame_rel hdr_tok content_tok c sl) ns ns' /\
+    Forall2 (edit_rel hdr_tok content_tok c (Transform.eff_sel c nf sl)) (map normalize ns) ns' /\
+    Forall2 (frame_rel hdr_tok content_tok c (Transform.eff_sel c nf sl)) ns ns' /\
     (cmd_ok c -> Forall writable_normal ns') /\
     (Forall writable_normal ns' -> wf_archive b' = true /\ read_archive b' = Ok (map RNormal ns')).
 Print Assumptions C10_frame_bytes.
+
+(* `pna strip ARCHIVE FILES...` on bytes (4d97c0da): an entry whose name FILES do not select is written with the identical chunk list
+   (byte-identical); a selected one keeps header, PHSF and data chunks and its view is Transform.cmd_strip of the old view; the output is
+   writable, well-formed and reads back.  Before the repair FILES were ignored (C10_strip_ignored_patterns_unrepaired_refuted) *)
+Theorem C10_frame_bytes_strip_patterns :
+  forall hdr_tok content_tok : normal_entry -> bytes,
+  (forall (e : normal_entry) (m : metadata) (xs : list xattr) (cs : list chunk),
+   hdr_tok (with_extra_chunks (with_xattrs (with_metadata e m) xs) cs) = hdr_tok e) ->
+  (forall (e : normal_entry) (m : metadata) (xs : list xattr) (cs : list chunk),
+   content_tok (with_extra_chunks (with_xattrs (with_metadata e m) xs) cs) = content_tok e) ->
+  forall (expand : solid_entry -> res (list normal_entry))
+    (rebuild : solid_entry -> list normal_entry -> solid_entry) (keep pw : bool) (o : Transform.strip_opts)
+    (nf : N) (sl : bytes -> bool) (ns : list normal_entry) (b' : bytes),
+  Forall writable_normal ns ->
+  nf <> 0 ->
+  run_edit hdr_tok content_tok expand rebuild keep pw (Transform.CStrip o) nf sl (write_raw_archive 0 (map ser_normal ns)) =
+  Ok b' ->
+  exists ns' : list normal_entry,
+    b' = write_raw_archive 0 (map ser_normal ns') /\
+    length ns' = length ns /\
+    Forall2 (fun n n' : normal_entry =>
+      n_hdr n' = n_hdr n /\ n_phsf n' = n_phsf n /\ n_data n' = n_data (normalize n) /\
+      (sl (f_name (n_hdr n)) = false -> ser_normal n' = ser_normal n) /\
+      (sl (f_name (n_hdr n)) = true ->
+       lview hdr_tok content_tok n' = Transform.cmd_strip o (lview hdr_tok content_tok (normalize n)))) ns ns' /\
+    Forall writable_normal ns' /\ wf_archive b' = true /\ read_archive b' = Ok (map RNormal ns').
+Proof. exact frame_bytes_strip_patterns. Qed.
+Check C10_frame_bytes_strip_patterns :
+  forall hdr_tok content_tok : normal_entry -> bytes,
+  (forall (e : normal_entry) (m : metadata) (xs : list xattr) (cs : list chunk),
+   hdr_tok (with_extra_chunks (with_xattrs (with_metadata e m) xs) cs) = hdr_tok e) ->
+  (forall (e : normal_entry) (m : metadata) (xs : list xattr) (cs : list chunk),
+   content_tok (with_extra_chunks (with_xattrs (with_metadata e m) xs) cs) = content_tok e) ->
+  forall (expand : solid_entry -> res (list normal_entry))
+    (rebuild : solid_entry -> list normal_entry -> solid_entry) (keep pw : bool) (o : Transform.strip_opts)
+    (nf : N) (sl : bytes -> bool) (ns : list normal_entry) (b' : bytes),
+  Forall writable_normal ns ->
+  nf <> 0 ->
+  run_edit hdr_tok content_tok expand rebuild keep pw (Transform.CStrip o) nf sl (write_raw_archive 0 (map ser_normal ns)) =
+  Ok b' ->
+  exists ns' : list normal_entry,
+    b' = write_raw_archive 0 (map ser_normal ns') /\
+    length ns' = length ns /\
+    Forall2 (fun n n' : normal_entry =>
+      n_hdr n' = n_hdr n /\ n_phsf n' = n_phsf n /\ n_data n' = n_data (normalize n) /\
+      (sl (f_name (n_hdr n)) = false -> ser_normal n' = ser_normal n) /\
+      (sl (f_name (n_hdr n)) = true ->
+       lview hdr_tok content_tok n' = Transform.cmd_strip o (lview hdr_tok content_tok (normalize n)))) ns ns' /\
+    Forall writable_normal ns' /\ wf_archive b' = true /\ read_archive b' = Ok (map RNormal ns').
+Print Assumptions C10_frame_bytes_strip_patterns.
 
 (* idempotence on bytes (chmod, chown, xattr set / remove, strip): the same command on its own output writes the same FILE *)
 Theorem C10_idempotent_bytes :
@@ -150,7 +202,7 @@ Theorem C10_idempotent_bytes_acl_partial :
   forall (expand : solid_entry -> res (list normal_entry))
     (rebuild : solid_entry -> list normal_entry -> solid_entry) (keep pw : bool) (c : Transform.cmd) 
     (nf : N) (sl : bytes -> bool) (ns : list normal_entry) (b' : bytes),
-  out_ok hdr_tok content_tok c sl ns ->
+  out_ok hdr_tok content_tok c (Transform.eff_sel c nf sl) ns ->
   (forall n' : normal_entry, TransformFacts.acl_reads_back c (lview hdr_tok content_tok n')) ->
   Forall writable_normal ns ->
   c <> Transform.CDelete ->
@@ -167,7 +219,7 @@ Check C10_idempotent_bytes_acl_partial :
   forall (expand : solid_entry -> res (list normal_entry))
     (rebuild : solid_entry -> list normal_entry -> solid_entry) (keep pw : bool) (c : Transform.cmd) 
     (nf : N) (sl : bytes -> bool) (ns : list normal_entry) (b' : bytes),
-  out_ok hdr_tok content_tok c sl ns ->
+  out_ok hdr_tok content_tok c (Transform.eff_sel c nf sl) ns ->
   (forall n' : normal_entry, TransformFacts.acl_reads_back c (lview hdr_tok content_tok n')) ->
   Forall writable_normal ns ->
   c <> Transform.CDelete ->
@@ -191,7 +243,7 @@ Theorem C10_edit_logical :
     (rebuild : solid_entry -> list normal_entry -> solid_entry) (keep pwb : bool) 
     (c : Transform.cmd) (nf : N) (sl : bytes -> bool) (ns : list normal_entry) (b' : bytes)
     (old : list xentry),
-  out_ok hdr_tok content_tok c sl ns ->
+  out_ok hdr_tok content_tok c (Transform.eff_sel c nf sl) ns ->
   Forall writable_normal ns ->
   c <> Transform.CDelete ->
   (nf = 0 -> forall n : bytes, sl n = false) ->
@@ -201,7 +253,7 @@ Theorem C10_edit_logical :
   Forall (reads_both rb) (map normalize ns) ->
   exists (ns' : list normal_entry) (new : list xentry),
     b' = write_raw_archive 0 (map ser_normal ns') /\
-    Forall2 (edit_rel hdr_tok content_tok c sl) (map normalize ns) ns' /\
+    Forall2 (edit_rel hdr_tok content_tok c (Transform.eff_sel c nf sl)) (map normalize ns) ns' /\
     xlogical E D decompress verify pw rb srb b' = Ok new /\
     Forall2 same_content old new /\
     Forall2 (fun (n' : normal_entry) (x' : xentry) => x' = xentry_of_normal (e_data x') n') ns' new.
@@ -218,7 +270,7 @@ Check C10_edit_logical :
     (rebuild : solid_entry -> list normal_entry -> solid_entry) (keep pwb : bool) 
     (c : Transform.cmd) (nf : N) (sl : bytes -> bool) (ns : list normal_entry) (b' : bytes)
     (old : list xentry),
-  out_ok hdr_tok content_tok c sl ns ->
+  out_ok hdr_tok content_tok c (Transform.eff_sel c nf sl) ns ->
   Forall writable_normal ns ->
   c <> Transform.CDelete ->
   (nf = 0 -> forall n : bytes, sl n = false) ->
@@ -228,7 +280,7 @@ Check C10_edit_logical :
   Forall (reads_both rb) (map normalize ns) ->
   exists (ns' : list normal_entry) (new : list xentry),
     b' = write_raw_archive 0 (map ser_normal ns') /\
-    Forall2 (edit_rel hdr_tok content_tok c sl) (map normalize ns) ns' /\
+    Forall2 (edit_rel hdr_tok content_tok c (Transform.eff_sel c nf sl)) (map normalize ns) ns' /\
     xlogical E D decompress verify pw rb srb b' = Ok new /\
     Forall2 same_content old new /\
     Forall2 (fun (n' : normal_entry) (x' : xentry) => x' = xentry_of_normal (e_data x') n') ns' new.
@@ -277,7 +329,7 @@ Theorem C10_edit_solid_logical :
     Forall writable es' /\
     wf_archive b' = true /\
     flat (expand_p E D decompress verify pw srb) es = Ok ns /\
-    Forall2 (edit_rel hdr_tok content_tok c sl) ns ns' /\
+    Forall2 (edit_rel hdr_tok content_tok c (Transform.eff_sel c nf sl)) ns ns' /\
     Forall2 same_content old new /\
     Forall2 attrs_of ns' new /\
     (Forall (srb_drains srb) es' -> xlogical E D decompress verify pw rb srb b' = Ok new).
@@ -322,7 +374,7 @@ Check C10_edit_solid_logical :
     Forall writable es' /\
     wf_archive b' = true /\
     flat (expand_p E D decompress verify pw srb) es = Ok ns /\
-    Forall2 (edit_rel hdr_tok content_tok c sl) ns ns' /\
+    Forall2 (edit_rel hdr_tok content_tok c (Transform.eff_sel c nf sl)) ns ns' /\
     Forall2 same_content old new /\
     Forall2 attrs_of ns' new /\
     (Forall (srb_drains srb) es' -> xlogical E D decompress verify pw rb srb b' = Ok new).
